@@ -15,7 +15,7 @@ def run(res, tier, seed):
         'axioms under the R theorems: ClassicalDedekindReals.sig_forall_dec, sig_not_dec, FunctionalExtensionality.functional_extensionality_dep',
     ]
     res.assumptions += [
-        'PARTIAL: positive SEMI-definiteness is proved; strict definiteness is only evaluated numerically on the extracted matrices',
+        'strict definiteness is proved (C05_A_positive_definite) under art^2 < 4 arr att, i.e. alpha > 0 on an invertible mapping; it is also evaluated numerically on the extracted matrices',
         'across the origin non-negativity is proved under art(0,.) = 0 (F9); for non-orthogonal mappings it is evaluated numerically',
         'the line blocks of the smoothers (principal submatrices) are covered with C06',
     ]
